@@ -111,8 +111,8 @@ def NoClimb (p : Str) : Prop := ∀ c ∈ splitOn 47 (stripSlash p), c ≠ [46, 
 theorem noClimb_of_secure {fb : List Str} {s : Str} (hs : secureB fb s = true)
     (hdd : [46,46] ∈ fb) (hnul : [0] ∈ fb) : NoClimb s := by
   intro c hc
-  have hsec := secure_infix_closed hs (stripSlash_prefix s).isInfix
-  exact (secure_components hsec hdd hnul c hc).1
+  have hsec := infixSafe_infix_closed (secure_infixSafe hs) (stripSlash_prefix s).isInfix
+  exact (infixSafe_components hsec hdd hnul c hc).1
 
 /-- **The kernel's `stat` below the root.**  If the configured root path resolves to the
     directory `R = .dir kids`, then for every absolute selector without a `..` component the
